@@ -906,6 +906,18 @@ def mini_exec(fn: ast.FunctionDef, args: Dict[str, object], budget: int = 2000, 
                     return mini_exec(m2_, {m2_.args.args[0].arg: v_}, budget, methods, _depth + 1, functions, ctors, classes, consts)
         raise _PathEval.Unknown("str() of a sample object")
 
+    def truth(v):
+        """bool(v) as Python decides it: an object of the program follows its class's __bool__, else __len__, else is true."""
+        if isinstance(v, SampleObj) and not isinstance(v, SampleElem):
+            for special in ("__bool__", "__len__"):
+                if special in v and callable(v[special]):
+                    return bool(v[special]())
+                if classes and v.get("__kind__") in classes and isinstance(classes[v["__kind__"]].get(special), ast.FunctionDef):
+                    m2_ = classes[v["__kind__"]][special]
+                    return bool(mini_exec(m2_, {m2_.args.args[0].arg: v}, budget, methods, _depth + 1, functions, ctors, classes, consts))
+            return True
+        return bool(v)
+
     def ev(e):
         if isinstance(e, ast.Attribute):
             try:
@@ -1259,7 +1271,7 @@ def mini_exec(fn: ast.FunctionDef, args: Dict[str, object], budget: int = 2000, 
                 g_ = e.generators[k]
                 for item in ev(g_.iter):
                     bind(g_.target, item)
-                    if all(ev(c) for c in g_.ifs):
+                    if all(truth(ev(c)) for c in g_.ifs):
                         gen(k + 1)
             gen(0)
             env.clear()
@@ -1274,7 +1286,9 @@ def mini_exec(fn: ast.FunctionDef, args: Dict[str, object], budget: int = 2000, 
             vals = [ev(a_) for a_ in e.args]
             if e.func.id in ("len", "bool") and len(vals) == 1 and isinstance(vals[0], SampleObj) and not isinstance(vals[0], SampleElem):
                 # the length / truth of an object of the program is what its class says
-                special = "__len__" if e.func.id == "len" or "__bool__" not in vals[0] else "__bool__"
+                if e.func.id == "bool":
+                    return truth(vals[0])
+                special = "__len__"
                 if special in vals[0] and callable(vals[0][special]):
                     return vals[0][special]() if e.func.id == "len" else bool(vals[0][special]())
                 if classes and vals[0].get("__kind__") in classes and isinstance(classes[vals[0]["__kind__"]].get(special), ast.FunctionDef):
@@ -1341,7 +1355,7 @@ def mini_exec(fn: ast.FunctionDef, args: Dict[str, object], budget: int = 2000, 
                     if steps[0] > budget:
                         raise _PathEval.Unknown("too many steps")
                     bind_private(g_.target, item)
-                    if with_loc(lambda: all(ev(c) for c in g_.ifs)):
+                    if with_loc(lambda: all(truth(ev(c)) for c in g_.ifs)):
                         yield from rec(k + 1)
             return rec(0)
         if isinstance(e, (ast.GeneratorExp, ast.ListComp)) and len(e.generators) == 1:
@@ -1350,7 +1364,7 @@ def mini_exec(fn: ast.FunctionDef, args: Dict[str, object], budget: int = 2000, 
             saved = dict(env)
             for item in ev(g.iter):
                 bind(g.target, item)
-                if all(ev(c) for c in g.ifs):
+                if all(truth(ev(c)) for c in g.ifs):
                     out.append(ev(e.elt))
             env.clear()
             env.update(saved)
@@ -1376,16 +1390,16 @@ def mini_exec(fn: ast.FunctionDef, args: Dict[str, object], budget: int = 2000, 
                 raise _PathEval.Unknown("comparison")
             return table[op]()
         if isinstance(e, ast.UnaryOp) and isinstance(e.op, ast.Not):
-            return not ev(e.operand)
+            return not truth(ev(e.operand))
         if isinstance(e, ast.BoolOp):
             v = None
             for x in e.values:
                 v = ev(x)
-                if bool(v) != isinstance(e.op, ast.And):
+                if truth(v) != isinstance(e.op, ast.And):
                     return v
             return v
         if isinstance(e, ast.IfExp):
-            return ev(e.body) if ev(e.test) else ev(e.orelse)
+            return ev(e.body) if truth(ev(e.test)) else ev(e.orelse)
         if isinstance(e, ast.Subscript):
             base = ev(e.value)
             if isinstance(e.slice, ast.Slice):
@@ -1514,7 +1528,7 @@ def mini_exec(fn: ast.FunctionDef, args: Dict[str, object], budget: int = 2000, 
             elif isinstance(st, ast.Expr) and isinstance(st.value, ast.Call):
                 ev(st.value)
             elif isinstance(st, ast.While):
-                while ev(st.test):
+                while truth(ev(st.test)):
                     steps[0] += 1
                     if steps[0] > budget:
                         raise _PathEval.Unknown("too many steps")
@@ -1526,10 +1540,10 @@ def mini_exec(fn: ast.FunctionDef, args: Dict[str, object], budget: int = 2000, 
             elif isinstance(st, ast.Raise):
                 raise _Raised(unparse(st.exc)[:60] if st.exc is not None else "")
             elif isinstance(st, ast.Assert):
-                if not ev(st.test):
+                if not truth(ev(st.test)):
                     raise _Raised("AssertionError")
             elif isinstance(st, ast.If):
-                run(st.body if ev(st.test) else st.orelse)
+                run(st.body if truth(ev(st.test)) else st.orelse)
             elif isinstance(st, ast.For):
                 broke = False
                 for item in ev(st.iter):
@@ -3516,7 +3530,8 @@ def rule_enum_lookup_covers_scope(ctx, rep: Report, rid="M13"):
         for c in ast.walk(fn):
             if isinstance(c, ast.Call) and isinstance(c.func, ast.Attribute) and unparse(c.func.value) == "self":
                 h = prog.find_method(ci, c.func.attr)
-                if h is not None and h[1] not in scopes:
+                # (the sibling predicate, consulted by the other one, is judged on its own turn - against its own scope)
+                if h is not None and h[1] not in scopes and c.func.attr not in ("is_class_enum", "is_global_enum"):
                     scopes.append(h[1])
         found, probs = 0, []
         for f_ in scopes:
